@@ -501,6 +501,13 @@ func (iv *c11Inv) install(bc *boundsCtx, fn *ssa.Function) {
 	})
 	// INV-children: elements of a Split() result have len(Array) >= 2
 	bc.valMin = func(v ssa.Value) (int64, bool) {
+		// a slice parameter of an unexported helper: at least as long as what every caller passes, when each caller
+		// passes the result of a module function whose every return has a length witness
+		if prm, ok := v.(*ssa.Parameter); ok {
+			if m, ok := p.paramMinLen(prm); ok {
+				return m, true
+			}
+		}
 		// v is X.body.Array / X.Body().Array where X is an element of a Split() call result
 		f, base := loadedField(v)
 		if f == nil || f.Name() != "Array" {
@@ -1248,3 +1255,121 @@ func (iv *c11Inv) oddGuard(tn string, a int64) bool {
 	}
 	return ok
 }
+
+// paramMinLen: lower bound on len(prm) from the call sites of an unexported function.
+func (p *Prog) paramMinLen(prm *ssa.Parameter) (m0 int64, ok0 bool) {
+	fn := prm.Parent()
+	if debugEnv {
+		defer func() { fmt.Printf("DEBUG paramMinLen %s.%s -> %d %v\n", fnKey(fn), prm.Name(), m0, ok0) }()
+	}
+
+	if _, isSl := prm.Type().Underlying().(*types.Slice); !isSl || fn.Object() == nil || fn.Object().Exported() {
+		return 0, false
+	}
+	idx := paramIndex(fn, prm)
+	edges := p.callersOf(fn)
+	if len(edges) == 0 {
+		return 0, false
+	}
+	min := int64(1 << 30)
+	for _, ed := range edges {
+		if p.isTestFn(ed.Caller.Func) {
+			continue
+		}
+		args := ed.Site.Common().Args
+		if idx >= len(args) {
+			return 0, false
+		}
+		call, ok := args[idx].(*ssa.Call)
+		if !ok {
+			return 0, false
+		}
+		g := calleeFn(call.Common())
+		if g == nil || !isModFn(g) || g.Blocks == nil {
+			return 0, false
+		}
+		m, ok := p.returnMinLen(g)
+		if !ok {
+			return 0, false
+		}
+		if m < min {
+			min = m
+		}
+	}
+	if min == 1<<30 || min < 1 {
+		return 0, false
+	}
+	return min, true
+}
+
+var returnMinLenMemo = map[*ssa.Function]int64{}
+
+// returnMinLen: the largest k in 1..3 such that every return of g returns a slice with len >= k (zone witness at the
+// return, under the path conditions); 0 when there is none.
+func (p *Prog) returnMinLen(g *ssa.Function) (int64, bool) {
+	if m, ok := returnMinLenMemo[g]; ok {
+		return m, m > 0
+	}
+	returnMinLenMemo[g] = 0
+	bc := newBoundsCtx(p, g)
+	min := int64(1 << 30)
+	eachInstr(g, func(b *ssa.BasicBlock, _ int, in ssa.Instruction) {
+		r, ok := in.(*ssa.Return)
+		if !ok || len(r.Results) == 0 {
+			return
+		}
+		witness := func(z *Zone, v ssa.Value) int64 {
+			L := bc.lenOf(v)
+			for _, t := range []int64{3, 2, 1} {
+				if z.entLE(lconst(t), L) {
+					return t
+				}
+			}
+			return 0
+		}
+		k := witness(bc.zoneAt(b), r.Results[0])
+		// a phi of slices: every incoming value under the conditions of its own edge
+		if ph, isPhi := r.Results[0].(*ssa.Phi); isPhi && k == 0 {
+			k = 1 << 30
+			// name every term first: definitional facts go to the base zone, which zoneAt copies
+			for i, e := range ph.Edges {
+				bc.lenOf(e)
+				pred := ph.Block().Preds[i]
+				if iff, ok := pred.Instrs[len(pred.Instrs)-1].(*ssa.If); ok {
+					bc.condFacts(iff.Cond, true)
+				}
+			}
+			for i, e := range ph.Edges {
+				pred := ph.Block().Preds[i]
+				z := bc.zoneAt(pred)
+				if iff, ok := pred.Instrs[len(pred.Instrs)-1].(*ssa.If); ok {
+					truth := pred.Succs[0] == ph.Block()
+					for _, f := range bc.condFacts(iff.Cond, truth) {
+						bc.apply(z, f)
+					}
+				}
+				w := witness(z, e)
+				if debugEnv {
+					L := bc.lenOf(e)
+					fmt.Printf("DEBUG returnMinLen %s edge %d %s len=%s%+d w=%d\n", fnKey(g), i, e, L.v, L.c, w)
+				}
+				if w < k {
+					k = w
+				}
+			}
+			if k == 1<<30 {
+				k = 0
+			}
+		}
+		if k < min {
+			min = k
+		}
+	})
+	if min == 1<<30 {
+		min = 0
+	}
+	returnMinLenMemo[g] = min
+	return min, min > 0
+}
+
+var debugEnv = false
